@@ -622,3 +622,32 @@ func MapParamsMatrix() *m.Design {
 		Services: []*m.Service{{Name: "mapparams", HasHTTP: true, Methods: []*m.Method{attr, multi, body}}},
 		Features: []string{"fixed-design:map-params-matrix", "map-params"}}
 }
+
+// NestMatrix is a fixed design about collections nested three deep, in every
+// order of array and map (the transform code goa generates for them uses
+// loop variables and temporaries whose names depend on the nesting), as HTTP
+// request and response bodies and as gRPC messages.
+func NestMatrix() *m.Design {
+	obj := func(fs ...*m.Field) *m.Attr { return &m.Attr{Type: &m.Type{Kind: m.Object, Fields: fs}} }
+	tag := 0
+	fld := func(n string, a *m.Attr) *m.Field { tag++; return &m.Field{Name: n, Attr: a, Tag: tag} }
+	str, i64 := func() *m.Attr { return m.Prim(m.String) }, func() *m.Attr { return m.Prim(m.Int64) }
+	arr := func(e *m.Attr) *m.Attr { return &m.Attr{Type: &m.Type{Kind: m.Array, Elem: e}} }
+	mp := func(v *m.Attr) *m.Attr { return &m.Attr{Type: &m.Type{Kind: m.Map, Key: m.Prim(m.String), Val: v}} }
+	deep := func() *m.Attr {
+		tag = 0
+		return obj(
+			fld("mam", mp(arr(mp(i64())))),
+			fld("ama", arr(mp(arr(str())))),
+			fld("mma", mp(mp(arr(i64())))),
+			fld("aam", arr(arr(mp(str())))),
+			fld("maa", mp(arr(arr(i64())))),
+			fld("amm", arr(mp(mp(str())))),
+			fld("note", str()))
+	}
+	http := &m.Method{Name: "deep", Payload: deep(), Result: deep(), HTTP: &m.HTTPEndpoint{Routes: []m.Route{{Verb: "POST", Path: "/nest/deep"}}}}
+	grpc := &m.Method{Name: "deepg", Payload: deep(), Result: deep(), GRPC: &m.GRPCEndpoint{}}
+	return &m.Design{API: m.API{Name: "nest", Title: "Nested collections matrix", Server: true},
+		Services: []*m.Service{{Name: "nest", HasHTTP: true, Methods: []*m.Method{http}}, {Name: "nestg", HasGRPC: true, Methods: []*m.Method{grpc}}},
+		Features: []string{"fixed-design:nest-matrix", "collections-nested-three-deep"}}
+}
